@@ -130,6 +130,18 @@ def _pack(dense, fmt, dup, shape=None):
         return mat.tocsr()
     if fmt == "csc":
         return mat.tocsc()
+    if fmt == "diaj":
+        # hand-assembled DIA storage: the slots of the diagonal arrays that lie outside the matrix (ignored by
+        # scipy) hold left-over non-finite values, e.g. 1/0 from difference quotients on a grid
+        D = mat.todia()
+        data = np.array(D.data, dtype=float, copy=True)
+        nr, nc = shape
+        for k, off in enumerate(D.offsets):
+            j = np.arange(data.shape[1])
+            i = j - off
+            outside = (i < 0) | (i >= nr) | (j >= nc)
+            data[k, outside] = np.where(np.arange(outside.sum()) % 2 == 0, np.inf, np.nan)
+        return sps.dia_matrix((data, D.offsets), shape=shape)
     if fmt in ("dia", "bsr", "lil", "dok"):
         # further scipy.sparse formats a user's callback may return
         return mat.asformat(fmt)
@@ -139,15 +151,19 @@ def _pack(dense, fmt, dup, shape=None):
 class SpecProblem(Problem):
     """The user's problem.  policy: 'fresh' | 'const' | 'memo' (see DESIGN C11)."""
 
-    def __init__(self, spec, fmt="coo", dup=False, policy="fresh"):
+    def __init__(self, spec, fmt="coo", dup=False, policy="fresh", vec_dtype=None):
         self.spec = spec
-        # integer-valued problem data handed over with an integer dtype (linear rows written with int coefficients)
-        self.int_matrices = bool(spec.meta.get("int_matrices"))
+        # problem data handed over in a narrower dtype where that represents it exactly: integer coefficients as
+        # int64/int32/int8, 0/1 incidence matrices as bool, single-precision data as float32
+        self.mat_dtype = spec.meta.get("mat_dtype") or ("int64" if spec.meta.get("int_matrices") else None)
+        # gradient / constraint values rounded to and handed over in this dtype (None: float64)
+        self.vec_dtype = vec_dtype
         self.fmt = fmt
         self.dup = dup
         self.policy = policy
         self._memo = {}
         self._const = {}
+        self._struct = {}
         kw = {}
         if spec.m > 0:
             kw = dict(cons_lb=np.copy(spec.cons_lb), cons_ub=np.copy(spec.cons_ub))
@@ -202,7 +218,7 @@ class SpecProblem(Problem):
 
     # policies ------------------------------------------------------------------
     def _deliver(self, name, key, make, constant):
-        if self.policy == "fresh":
+        if self.policy in ("fresh", "shared", "unshared"):
             return make()
         if self.policy == "const" and constant:
             if name not in self._const:
@@ -215,6 +231,48 @@ class SpecProblem(Problem):
             return self._memo[k]
         raise ValueError(self.policy)
 
+    def _shared(self, name, dense):
+        """policy 'shared': the sparsity structure is set up once (full pattern, stored in non-canonical order:
+        unsorted within each row/column, with dup every position split into two stored parts) and its index arrays
+        are shared by all matrices handed out; only the value array is fresh on every call."""
+        dense = np.asarray(dense, dtype=float)
+        st = self._struct.get(name)
+        if st is None:
+            nr, nc = dense.shape
+            rng = rng_for("struct", name, nr, nc, self.spec.n, self.spec.m)
+            r, c = np.divmod(np.arange(nr * nc), nc) if nr * nc else (np.zeros(0, int), np.zeros(0, int))
+            fac = np.ones(r.shape[0])
+            if self.dup:
+                r, c = np.concatenate([r, r]), np.concatenate([c, c])
+                fac = (np.concatenate([fac * 2.0, -fac]) if self.dup == 2 else np.concatenate([fac * 0.5, fac * 0.5]))
+            perm = rng.permutation(r.shape[0])
+            r, c, fac = r[perm], c[perm], fac[perm]
+            if self.fmt in ("csr", "csc"):
+                major, minor, nmaj = (r, c, nr) if self.fmt == "csr" else (c, r, nc)
+                o = np.argsort(major, kind="stable")   # minor indices stay in shuffled order
+                r, c, fac = r[o], c[o], fac[o]
+                indptr = np.zeros(nmaj + 1, dtype=np.int32)
+                np.cumsum(np.bincount(major, minlength=nmaj), out=indptr[1:])
+                idx = (np.array((c if self.fmt == "csr" else r), dtype=np.int32), indptr)
+            else:
+                idx = (np.array(r, dtype=np.int32), np.array(c, dtype=np.int32))
+            st = self._struct[name] = {"r": r, "c": c, "fac": fac, "idx": idx, "shape": (nr, nc),
+                                       "pristine": tuple(np.copy(a) for a in idx)}
+        data = dense[st["r"], st["c"]] * st["fac"]
+        # 'unshared': the same storage layout, but every matrix gets its own copy of the index arrays
+        i0, i1 = st["idx"] if self.policy == "shared" else (np.copy(st["idx"][0]), np.copy(st["idx"][1]))
+        if self.fmt == "csr":
+            return sps.csr_matrix((data, i0, i1), shape=st["shape"])
+        if self.fmt == "csc":
+            return sps.csc_matrix((data, i0, i1), shape=st["shape"])
+        return sps.coo_matrix((data, (i0, i1)), shape=st["shape"])
+
+    def structure_arrays(self):
+        """(name, shared index array, pristine copy) of the structures set up so far"""
+        for name, st in self._struct.items():
+            for k, (a, b) in enumerate(zip(st["idx"], st["pristine"])):
+                yield "%s.index[%d]" % (name, k), a, b
+
     def cached_objects(self):
         for k, v in self._const.items():
             yield (k, None), v
@@ -223,18 +281,19 @@ class SpecProblem(Problem):
 
     # Problem interface -----------------------------------------------------------
     def obj(self, x):
-        return self._obj(np.array(x, dtype=float))
+        v = self._obj(np.array(x, dtype=float))
+        return v if self.vec_dtype is None else self._vec(np.array([v]))[0]
 
     def obj_grad(self, x):
         x = np.array(x, dtype=float)
-        return self._deliver("obj_grad", x.tobytes(), lambda: self._obj_grad(x), False)
+        return self._deliver("obj_grad", x.tobytes(), lambda: self._vec(self._obj_grad(x)), False)
 
     def cons(self, x):
         if self.spec.m == 0:
             # a user without constraints does not implement the constraint callbacks
             raise NotImplementedError()
         x = np.array(x, dtype=float)
-        return self._deliver("cons", x.tobytes(), lambda: self._cons(x), False)
+        return self._deliver("cons", x.tobytes(), lambda: self._vec(self._cons(x)), False)
 
     def cons_jac(self, x):
         if self.spec.m == 0:
@@ -243,7 +302,8 @@ class SpecProblem(Problem):
         const = not self.spec.nonlinear_cons
         return self._deliver(
             "cons_jac", x.tobytes(),
-            lambda: self._intify(_pack(self._cons_jac_dense(x), self.fmt, self.dup)), const)
+            lambda: (self._shared("cons_jac", self._cons_jac_dense(x)) if self.policy in ("shared", "unshared") and self.fmt in ("coo", "csr", "csc")
+                     else self._intify(_pack(self._cons_jac_dense(x), self.fmt, self.dup))), const)
 
     def lag_hess(self, x, y):
         x = np.array(x, dtype=float)
@@ -251,14 +311,26 @@ class SpecProblem(Problem):
         const = self.spec.is_qp
         return self._deliver(
             "lag_hess", x.tobytes() + y.tobytes(),
-            lambda: self._intify(_pack(self._lag_hess_dense(x, y), self.fmt, self.dup)), const)
+            lambda: (self._shared("lag_hess", self._lag_hess_dense(x, y)) if self.policy in ("shared", "unshared") and self.fmt in ("coo", "csr", "csc")
+                     else self._intify(_pack(self._lag_hess_dense(x, y), self.fmt, self.dup))), const)
 
     def _intify(self, mat):
-        if self.int_matrices and self.fmt in ("coo", "csr", "csc") and not self.dup:
-            d = mat.data
-            if d.size and np.all(d == np.round(d)) and np.all(np.abs(d) < 2 ** 40):
-                return mat.astype(np.int64)
+        if self.mat_dtype and self.fmt in ("coo", "csr", "csc") and not self.dup:
+            d = np.asarray(mat.data)
+            if d.size and np.all(np.isfinite(d)) and np.all(np.abs(d) < 2 ** 40):
+                with np.errstate(all="ignore"):
+                    narrow = d.astype(self.mat_dtype)
+                if np.array_equal(narrow.astype(float), d):
+                    return mat.astype(self.mat_dtype)
         return mat
+
+    def _vec(self, v):
+        if self.vec_dtype is None:
+            return v
+        v = np.asarray(v, dtype=float)
+        if np.dtype(self.vec_dtype).kind == "i" and not (np.all(np.isfinite(v)) and np.all(np.abs(v) < 2.0 ** 40)):
+            return v   # (out of the integer range: handed over as it is)
+        return v.astype(self.vec_dtype)
 
 
 # --------------------------------------------------------------------------- generators
@@ -685,13 +757,19 @@ def gen_ncvx(rng, variant=None):
 
 
 def gen_intqp(rng, n=None):
-    """Convex QP with small integer data; Jacobian and Hessian are handed over with dtype int64."""
+    """Convex QP with small integer data; Jacobian and Hessian are handed over with an integer dtype (int64, int32,
+    int8) or, for 0/1 incidence rows (and a unit Hessian in half of those cases), as bool matrices."""
     n = int(rng.integers(2, 7)) if n is None else n
     m = int(rng.integers(1, n))
+    mat_dtype = str(rng.choice(["int64", "int64", "int32", "int8", "bool", "bool"]))
     L = np.tril(rng.integers(-2, 3, size=(n, n))).astype(float)
     Q = L @ L.T + np.diag(rng.integers(1, 4, size=n)).astype(float)
     q = rng.integers(-5, 6, size=n).astype(float)
     A = rng.integers(-3, 4, size=(m, n)).astype(float)
+    if mat_dtype == "bool":
+        A = (rng.random(size=(m, n)) < 0.5).astype(float)
+        if rng.random() < 0.5:
+            Q = np.eye(n)
     for i in range(m):
         if not A[i].any():
             A[i, int(rng.integers(0, n))] = 1.0
@@ -702,7 +780,19 @@ def gen_intqp(rng, n=None):
     rk = _choose_kinds(rng, m, ROW_KINDS, [0.2, 0.2, 0.2, 0.2, 0.2])
     l, u = _row_bounds(rng, cs, rk)
     x0 = start_point(rng, lb, ub)
-    return Spec(Q, q, A, np.zeros(m), lb, ub, l, u, x0=x0, meta={"family": "INTQP", "xs": xs, "int_matrices": True})
+    return Spec(Q, q, A, np.zeros(m), lb, ub, l, u, x0=x0, meta={"family": "INTQP", "xs": xs, "mat_dtype": mat_dtype})
+
+
+def gen_f32qp(rng, **kw):
+    """QP whose matrices hold single-precision data (every entry of Q and A is a float32 value) and are handed
+    over as float32 sparse matrices."""
+    s = gen_qp(rng, **kw)
+    s.Q = s.Q.astype(np.float32).astype(float)
+    s.Q = 0.5 * (s.Q + s.Q.T)
+    s.A = s.A.astype(np.float32).astype(float)
+    s.meta["family"] = "F32QP"
+    s.meta["mat_dtype"] = "float32"
+    return s
 
 
 FAMILIES = {
@@ -714,6 +804,7 @@ FAMILIES = {
     "DEG": lambda rng, **kw: gen_deg(rng, **kw),
     "NCVX": lambda rng, **kw: gen_ncvx(rng, **kw),
     "INTQP": lambda rng, **kw: gen_intqp(rng, **kw),
+    "F32QP": lambda rng, **kw: gen_f32qp(rng, **kw),
 }
 
 
